@@ -817,7 +817,64 @@ def run(ctx: Ctx):
                 if pred(call):
                     return i_, st, c, call, fn
         return None
-    val = first(lambda c: (dotted(c.func) or "").endswith("jsonschema.validate") or dotted(c.func) == "validate")
+    # a validation point: jsonschema.validate(doc, schema), or the same thing spelled out with a validator object --
+    # V = <Validator>(schema); V.validate(doc)  /  err = best_match(V.iter_errors(doc)); if err is not None: raise err --
+    # which is viewed as the call validate(doc, schema)
+    _views = {}
+
+    def validate_view(call, f):
+        if id(call) in _views:
+            return _views[id(call)]
+        d = dotted(call.func) or ""
+        out = None
+        if d.endswith("jsonschema.validate") or d == "validate":
+            out = call
+        elif isinstance(call.func, ast.Attribute) and call.func.attr in ("validate", "iter_errors") \
+                and isinstance(call.func.value, ast.Name) and len(call.args) == 1 and f is not None:
+            vname = call.func.value.id
+            schema = None
+            for n_ in ast.walk(f):
+                if isinstance(n_, ast.Assign) and any(isinstance(t_, ast.Name) and t_.id == vname for t_ in n_.targets) \
+                        and isinstance(n_.value, ast.Call) and (n_.value.args or any(k.arg == "schema" for k in n_.value.keywords)):
+                    schema = n_.value.args[0] if n_.value.args else next(k.value for k in n_.value.keywords if k.arg == "schema")
+            enforced = call.func.attr == "validate"
+            if not enforced:
+                # the errors found must end in a raise: `E = g(V.iter_errors(doc))` ... `if E [is not None]: raise ...`
+                # at the same level, or `for e in V.iter_errors(doc): raise e`
+                for n_ in ast.walk(f):
+                    if isinstance(n_, ast.For) and any(x is call for x in ast.walk(n_.iter)) and n_.body \
+                            and isinstance(n_.body[0], ast.Raise):
+                        enforced = True
+                for blk in [b_ for n_ in ast.walk(f) for b_ in (getattr(n_, "body", None), getattr(n_, "orelse", None))
+                            if isinstance(b_, list)]:
+                    for i_, st_ in enumerate(blk):
+                        if isinstance(st_, ast.Assign) and len(st_.targets) == 1 and isinstance(st_.targets[0], ast.Name) \
+                                and any(x is call for x in ast.walk(st_.value)) \
+                                and (dotted(getattr(st_.value, "func", None)) or "").split(".")[-1] in ("best_match", "next", "list", "tuple", "sorted"):
+                            en = st_.targets[0].id
+                            for nx in blk[i_ + 1:]:
+                                if isinstance(nx, ast.If) and not nx.orelse and nx.body and isinstance(nx.body[-1], ast.Raise) \
+                                        and (ast.unparse(nx.test) in (en, f"{en} is not None", f"{en} != None", f"len({en}) > 0", f"len({en})")):
+                                    enforced = True
+                                    break
+                                if any(isinstance(x, ast.Name) and x.id == en and isinstance(x.ctx, ast.Store) for x in ast.walk(nx)):
+                                    break
+            if schema is not None and enforced:
+                out = ast.Call(func=ast.Attribute(value=ast.Name(id="jsonschema", ctx=ast.Load()), attr="validate", ctx=ast.Load()),
+                               args=[call.args[0], schema], keywords=[])
+                ast.copy_location(out, call)
+                ast.fix_missing_locations(out)
+        _views[id(call)] = out
+        return out
+
+    def first_validate():
+        for i_, st, c, fn in order:
+            for call in simple_calls(st):
+                v_ = validate_view(call, fn)
+                if v_ is not None:
+                    return i_, st, c, v_, fn
+        return None
+    val = first_validate()
     create = first(lambda c: (dotted(c.func) or "").endswith("create_lsp_model"))
     plug_import = first(lambda c: dotted(c.func) in ("importlib.import_module",))
     plug_call = first(lambda c: (dotted(c.func) or "").endswith(".generate"))
@@ -853,8 +910,9 @@ def run(ctx: Ctx):
                 if any(isinstance(s_, (ast.If, ast.Try, ast.While)) for s_, _ in c):
                     continue
                 for call in calls_in(st):
-                    if is_validate(call) and call.args and dotted(call.args[0]):
-                        out.setdefault(dotted(call.args[0]), i_)
+                    v_ = validate_view(call, f)
+                    if v_ is not None and v_.args and dotted(v_.args[0]):
+                        out.setdefault(dotted(v_.args[0]), i_)
             return out
 
         def rebinds_after(f, name, pos):
